@@ -174,4 +174,13 @@ def rc : List Ev → RC
 def Py.removeComments (s : List Char) : RC := rc (Py.traverse s)
 def Cpp.removeComments (s : List Char) : RC := rc (Cpp.traverse s)
 
+/-! ### StripSpaces -/
+
+/-- ASCII white space (`str.isspace` restricted to the characters the layout noise uses; Python also counts\n`\\x1c`-`\\x1f`, `\\x85` and the Unicode spaces) -/
+def isSp (c : Char) : Bool := c = ' ' || c = '\n' || c = '\t' || c = '\r' || c = Char.ofNat 11 || c = Char.ofNat 12
+
+/-- `parse.py: StripSpaces`: the slice between the first and the last non-blank character -/
+def stripSpaces (s : List Char) : List Char := ((s.dropWhile isSp).reverse.dropWhile isSp).reverse
+
+
 end Logica.Scan
